@@ -341,7 +341,16 @@ pub fn tuple_strategy(dim: usize) -> BoxedStrategy<Case> {
                 }
                 _ => raw.iter().map(|r| r.iter().map(|&v| (v % 33) as f64 / 8.0).collect()).collect(),
             };
-            if shift > 0 && aux[3] % 2 == 0 {
+            // a quarter of the tuples are scaled down by 2^-k, k in 4..=31 (exact): small-scale input, where
+            // an absolute tolerance floor matters (|det| ~ h^D against the documented 1e-15 + 1e-12 * norm)
+            if aux[2] % 4 == 0 {
+                let t = 2f64.powi(-((aux[1] % 28) as i32 + 4));
+                for p in pts.iter_mut() {
+                    for c in p.iter_mut() {
+                        *c *= t;
+                    }
+                }
+            } else if shift > 0 && aux[3] % 2 == 0 {
                 let t = 2f64.powi(shift as i32);
                 for p in pts.iter_mut() {
                     for c in p.iter_mut() {
@@ -449,7 +458,7 @@ pub fn meta() -> super::Meta {
     super::Meta {
         id: ID,
         level: "exploration",
-        rule: "cases = (D+1)-simplex + query point: every ordered tuple of the {0,1,2}^2 grid (exhaustive) and of the {0,1}^3 cube (exhaustive in thorough, a seed-chosen quarter in quick), plus proptest-generated integer/dyadic/cospherical/flat/translated tuples for D=2..5, each under all (D<=3) or up to 24 vertex permutations; an evaluation = one predicate call compared with the exact sign when the determinant is outside tol+rounding bound; non-trivial = exact orientation or in-sphere determinant is 0, or |det| < 1024*(tol+bound); distinct by coordinate tuple",
+        rule: "cases = (D+1)-simplex + query point: every ordered tuple of the {0,1,2}^2 grid (exhaustive) and of the {0,1}^3 cube (exhaustive in thorough, a seed-chosen quarter in quick), plus proptest-generated integer/dyadic/cospherical/flat/translated tuples for D=2..5 (a quarter of them scaled down by 2^-4..2^-31), each under all (D<=3) or up to 24 vertex permutations; an evaluation = one predicate call compared with the exact sign when the determinant is outside tol+rounding bound; non-trivial = exact orientation or in-sphere determinant is 0, or |det| < 1024*(tol+bound); distinct by coordinate tuple",
         assumptions: &[
             "tolerance band = base_tol + 1e-12*max row sum (geometry/matrix.rs::adaptive_tolerance); rounding bound = 2*gamma_n*sum|cof_ij|(|L||U|)_ij from a mirrored GEPP, see DESIGN 2.1",
             "insphere_distance is held only to the no-opposite-strict-answers cross-check",
